@@ -83,3 +83,87 @@ def check_shape(k, es, res):
                         return (f"DAG {list(es)} with node ids {perm} (stub {stub}), target {target}: succession {s} ends in node "
                                 f"{perm[i]} {space[i]}, which has a descendant that contradicts the target or is a non-goal minimal trap")
     return None
+
+
+def _new_node(sd, nid, space):
+    from biobalm.space_utils import space_unique_key
+    sd.dag.add_node(nid, space=space, depth=0, expanded=False, percolated_network=None, percolated_petri_net=None,
+                    percolated_nfvs=None, attractor_candidates=None, attractor_seeds=None, attractor_sets=None,
+                    parent_node=None, skipped=None)
+    sd.node_indices[space_unique_key(space, sd.network)] = nid
+
+
+def check_growth(k, es, res):
+    """the diagram grows between two control queries: a stub P (and everything reachable only through it) is expanded with
+    the real _ensure_edge after a first query, then every target is queried again; answers must be sound for the grown diagram
+    (derived data cached by the first query must not survive the growth)"""
+    from biobalm import SuccessionDiagram
+    from biobalm.control import successions_to_target
+    names = [f"x{j}" for j in range(1, k)]
+    children = {i: [b for (a, b) in es if a == i] for i in range(k)}
+    anc = {i: {i} for i in range(k)}
+    for (a, b) in sorted(es):
+        anc[b] |= anc[a]
+    space = {i: {f"x{j}": 1 for j in anc[i] if j != 0} for i in range(k)}
+    by_space = {frozenset(space[i].items()): i for i in range(k)}
+    for P in range(k):
+        if not children[P]:
+            continue
+        # nodes reachable from the root without using P's out-edges
+        R1 = {0}
+        todo = [0]
+        while todo:
+            x = todo.pop()
+            if x == P:
+                continue
+            for c in children[x]:
+                if c not in R1:
+                    R1.add(c)
+                    todo.append(c)
+        if P not in R1:
+            continue
+        R2 = [i for i in range(k) if i not in R1]
+        r1 = sorted(R1 - {0})
+        for rest in itertools.permutations(range(1, len(R1))):
+            ids = {0: 0}
+            for node, nid in zip(r1, rest):
+                ids[node] = nid
+            for j, node in enumerate(R2):
+                ids[node] = len(R1) + j
+            sd = SuccessionDiagram.from_rules("\n".join(f"{nm}, {nm}" for nm in names))
+            sd.dag = nx.DiGraph()
+            sd.node_indices = {}
+            for node in sorted(R1, key=lambda n: ids[n]):
+                _new_node(sd, ids[node], space[node])
+            for node in R1:
+                if node == P:
+                    continue
+                sd.dag.nodes[ids[node]]["expanded"] = True
+                for c in children[node]:
+                    sd._ensure_edge(ids[node], ids[c], space[c])
+            # first query (any target): lets the implementation compute and keep whatever it derives from the diagram
+            successions_to_target(sd, {names[-1]: 1}, expand_diagram=False)
+            # growth: expand P, then everything that became reachable, in topological order, with the real edge code
+            for node in [P] + R2:
+                for c in children[node]:
+                    if ids[c] not in sd.dag.nodes:
+                        _new_node(sd, ids[c], space[c])
+                    sd._ensure_edge(ids[node], ids[c], space[c])
+                sd.dag.nodes[ids[node]]["expanded"] = True
+            for vals in itertools.product([None, 0, 1], repeat=k - 1):
+                target = {nm: v for nm, v in zip(names, vals) if v is not None}
+                if not target:
+                    continue
+                res["evals"] += 1
+                valid = reference_valid(k, es, space, target, None)
+                got = successions_to_target(sd, dict(target), expand_diagram=False)
+                for s in got:
+                    end = {}
+                    for m in s:
+                        end.update(m)
+                    i = by_space.get(frozenset(end.items()))
+                    if i is None or not valid[i]:
+                        return (f"DAG {list(es)}: node {P} (and what is reachable only through it) expanded after a first control query, node ids "
+                                f"{ids}; second query with target {target}: succession {s} ends in a node with a descendant that contradicts "
+                                f"the target or is a non-goal minimal trap")
+    return None
